@@ -46,7 +46,7 @@ CHECKS = {
              "binary and ASCII; recorded writer histories are validated by TLC. All real-code stages run in forked workers: a native crash is a verdict.",
         design="3/C09 and 9",
         note="Trusted: TLC, the independent frame parsers, the container builder driven by the spec's manifest. Counts 1..3 per dimension; meaning of numbers not "
-             "modelled. Five known findings (ASCII field widths, DLAYXS ASCII read, ISOTXS/GAMISO sub-blocking) are listed in known_findings.json.",
+             "modelled. Six known findings (ASCII field widths, DLAYXS ASCII read, ISOTXS/GAMISO sub-blocking) are listed in known_findings.json.",
         technique="TLA+ record/format grammar specs + TLC; files written by real code checked against the TLC-computed record sequence; read-back and byte-identical rewrite; TLC trace validation",
     ),
     "C15": dict(
